@@ -32,6 +32,8 @@ def gen(rng, tier):
             lo[k] = 0.0
         elif r < 0.5:
             hi[k] = 0.0
+        elif r < 0.58 and nz >= 2:
+            lo[k] = hi[k] = 0.0           # a component fixed at zero by coinciding bounds
     return {'kind': 'matrule', 'a': a, 'b': b, 'nz': nz, 'mask': mask.tolist(),
             'lo': lo.tolist(), 'hi': hi.tolist(), 'set_form': int(rng.integers(3)),
             'C': np.round(rng.uniform(-2, 2, (a, b, nz)), 1).tolist(),
